@@ -3,7 +3,8 @@ package roles
 // verif:search
 // Replay concretiser for obligations of (*ClusterRoleBackedValidator).ValidatePermissionRequests
 // (C18): the allow-list ClusterRole exists (and covers the request or not), does not exist, or
-// cannot be read; a request is reported as not rejected only when the role was read and covers it.
+// cannot be read; a request is reported as not rejected only when the role was read and covers it -
+// also when the same validator is asked again after the allow-list was edited in place.
 
 import (
 	"context"
@@ -26,9 +27,11 @@ func TestVerifReplay(t *testing.T) {
 			o.(*rbacv1.ClusterRole).Rules = []rbacv1.PolicyRule{{APIGroups: []string{"apps"}, Resources: []string{"deployments"}, Verbs: []string{"get"}}}
 			return nil
 		},
-		"allow-list role is empty":        func(client.Object) error { return nil },
-		"allow-list role does not exist":  func(client.Object) error { return kerrors.NewNotFound(schema.GroupResource{Resource: "clusterroles"}, "allowed") },
-		"allow-list role cannot be read":  func(client.Object) error { return errors.New("boom") },
+		"allow-list role is empty": func(client.Object) error { return nil },
+		"allow-list role does not exist": func(client.Object) error {
+			return kerrors.NewNotFound(schema.GroupResource{Resource: "clusterroles"}, "allowed")
+		},
+		"allow-list role cannot be read": func(client.Object) error { return errors.New("boom") },
 	}
 	for name, w := range worlds {
 		c := &test.MockClient{MockGet: test.NewMockGetFn(nil, w)}
@@ -38,5 +41,32 @@ func TestVerifReplay(t *testing.T) {
 			t.Fatalf("VERIF-REPRODUCED: %s: request %v -> rejected=%v err=%v (granted=%v)", name, req, rejected, err, granted)
 		}
 	}
-	t.Logf("searched %d allow-list states: contract holds on all of them", len(worlds))
+	// histories: one validator, the allow-list edited in place between two validations (same UID,
+	// generation stays 0 - the API server does not count generations of ClusterRoles)
+	covering := []rbacv1.PolicyRule{req}
+	other := []rbacv1.PolicyRule{{APIGroups: []string{"apps"}, Resources: []string{"deployments"}, Verbs: []string{"get"}}}
+	for _, h := range []struct {
+		name          string
+		first, second []rbacv1.PolicyRule
+	}{{"narrowed", covering, other}, {"widened", other, covering}, {"unchanged-covering", covering, covering}, {"unchanged-other", other, other}} {
+		current := h.first
+		c := &test.MockClient{MockGet: test.NewMockGetFn(nil, func(o client.Object) error {
+			cr := o.(*rbacv1.ClusterRole)
+			cr.UID = "allow-list-uid"
+			cr.ResourceVersion = "1"
+			cr.Rules = current
+			return nil
+		})}
+		v := NewClusterRoleBackedValidator(c, "allowed")
+		for i, rules := range [][]rbacv1.PolicyRule{h.first, h.second} {
+			current = rules
+			rejected, err := v.ValidatePermissionRequests(context.Background(), req)
+			granted := err == nil && len(rejected) == 0
+			want := len(rules) == 1 && rules[0].Resources[0] == "clusterrolebindings"
+			if granted != want {
+				t.Fatalf("VERIF-REPRODUCED: allow-list %s, validation %d with the same validator: request %v -> rejected=%v err=%v (granted=%v, the allow-list read in this call says %v)", h.name, i+1, req, rejected, err, granted, want)
+			}
+		}
+	}
+	t.Logf("searched %d allow-list states and 4 edit histories: contract holds on all of them", len(worlds))
 }
